@@ -20,7 +20,7 @@ pub enum L {
     Tt,
 }
 
-pub const MENU: [L; 16] = [L::T("a"), L::T("b c"), L::T("c "), L::T("d\t"), L::T("...x"), L::T("---x"), L::T(" x"), L::T("\ty"), L::E, L::Es, L::T("- z"), L::T("k: v"), L::T("# n"), L::S, L::En, L::Tt];
+pub const MENU: [L; 18] = [L::T("a"), L::T("b c"), L::T("c "), L::T("d\t"), L::T("...x"), L::T("---x"), L::T("..."), L::T("--- z"), L::T(" x"), L::T("\ty"), L::E, L::Es, L::T("- z"), L::T("k: v"), L::T("# n"), L::S, L::En, L::Tt];
 pub const LONG_MENU: [L; 4] = [L::T("aaaaaaaaaaaaaaa"), L::T("aaaaaaaaaaaaaaaa"), L::T("aaaaaaaaaaaaaaaaa"), L::T("aaaaaaaaaaaaaaaaaaaaaaaaaaaaaaaaaaaaaaaaaaaaaaaaaaaaaaaaaaaaaaaaaaaaaaaaaaaaaaaaaaaaaaaaaaaaaaaaaaaaaaaaaaaaaaaaaaaaaaaaaaaaaaaaaaaaaaaaaa é")];
 
 /// The text the scalar denotes. chomp: 0 strip, 1 clip, 2 keep.
@@ -137,6 +137,10 @@ pub fn render(lines: &[L], c: &Cfg) -> Option<Rendered> {
         _ => (String::new(), -1),
     };
     if c.ctx == 9 && c.ind != 0 {
+        return None;
+    }
+    // at column 0 a document marker is a document marker, not content
+    if c.ctx == 9 && lines.iter().any(|l| matches!(l, L::T(t) if *t == "..." || t.starts_with("... ") || *t == "---" || t.starts_with("--- "))) {
         return None;
     }
     // An explicit indentation indicator at document level: the statement says "the content
